@@ -259,8 +259,13 @@ pub struct AddrsLike { _p: () }
 //@extract_type file=actix-server/src/builder.rs item="enum MpTcp"
 #[verifier::external_body]
 pub struct StdTcpListener { _p: () }
+/// `nonblocking()`: the mode the OS socket is in once the builder is done with it (a PROPHECY name: `set_nonblocking`
+/// acts through `&self`).  The accept loop drains a listener until WouldBlock — a blocking listener would block the
+/// accept thread, and with it every other listener and every wake-up.
+pub uninterp spec fn listener_nonblocking(l: &MioListener) -> bool;
 impl StdTcpListener {
-    #[verifier::external_body] pub fn set_nonblocking(&self, b: bool) -> (r: io::Result<()>) { unimplemented!() }
+    pub uninterp spec fn nonblocking(&self) -> bool;
+    #[verifier::external_body] pub fn set_nonblocking(&self, b: bool) -> (r: io::Result<()>) ensures r is Ok ==> self.nonblocking() == b { unimplemented!() }
     #[verifier::external_body] pub fn local_addr(&self) -> (r: io::Result<StdSocketAddr>) { unimplemented!() }
 }
 impl MioTcpListener {
@@ -271,11 +276,14 @@ impl vstd::std_specs::convert::FromSpecImpl<StdTcpListener> for MioListener {
     uninterp spec fn from_spec(l: StdTcpListener) -> MioListener;
 }
 impl From<StdTcpListener> for MioListener {
-    #[verifier::external_body] fn from(l: StdTcpListener) -> (r: MioListener) ensures r is Tcp { unimplemented!() }
+    #[verifier::external_body] fn from(l: StdTcpListener) -> (r: MioListener) ensures r is Tcp, listener_nonblocking(&r) == l.nonblocking() { unimplemented!() }
 }
 #[verifier::external_body]
 pub struct StdUnixListener { _p: () }
-impl StdUnixListener { #[verifier::external_body] pub fn set_nonblocking(&self, b: bool) -> (r: io::Result<()>) { unimplemented!() } }
+impl StdUnixListener {
+    pub uninterp spec fn nonblocking(&self) -> bool;
+    #[verifier::external_body] pub fn set_nonblocking(&self, b: bool) -> (r: io::Result<()>) ensures r is Ok ==> self.nonblocking() == b { unimplemented!() }
+}
 impl StdSocketAddr { #[verifier::external_body] pub fn new(ip: std::net::IpAddr, port: u16) -> (r: StdSocketAddr) { unimplemented!() } }
 pub mod socket { pub use super::StdSocketAddr; pub use super::StdUnixListener; }
 impl vstd::std_specs::convert::FromSpecImpl<StdUnixListener> for MioListener {
@@ -283,7 +291,7 @@ impl vstd::std_specs::convert::FromSpecImpl<StdUnixListener> for MioListener {
     uninterp spec fn from_spec(l: StdUnixListener) -> MioListener;
 }
 impl From<StdUnixListener> for MioListener {
-    #[verifier::external_body] fn from(l: StdUnixListener) -> (r: MioListener) ensures r is Uds { unimplemented!() }
+    #[verifier::external_body] fn from(l: StdUnixListener) -> (r: MioListener) ensures r is Uds, listener_nonblocking(&r) == l.nonblocking() { unimplemented!() }
 }
 /// builder.rs `bind_addr` (resolves and binds every address; sockets are the OS's): NOT verified
 #[verifier::external_body]
@@ -391,10 +399,11 @@ impl ServerBuilder {
         self.sockets@.len() > 0, r.built_from() == self,
 //@end
 
-//@extract file=actix-server/src/builder.rs item="impl ServerBuilder / fn workers" ret=r props=C01 name=builder::workers mut_self intended_panics
+//@extract file=actix-server/src/builder.rs item="impl ServerBuilder / fn workers" ret=r props=C01 name=builder::workers mut_self intended_panics runtime_asserts
 //@spec
-    requires num != 0,      // `assert_ne!(num, 0)`: an intended panic, made the precondition
-    ensures r.threads == num, r.same_table(&self), r.worker_config == self.worker_config,
+    ensures
+        num != 0,      // `assert_ne!(num, 0)`: the documented panic — the call returns only for a positive worker count   [C01]
+        r.threads == num, r.same_table(&self), r.worker_config == self.worker_config,
 //@end
 //@extract file=actix-server/src/builder.rs item="impl ServerBuilder / fn max_concurrent_connections" ret=r props=C02 name=builder::max_concurrent_connections mut_self
 //@spec
@@ -415,7 +424,8 @@ impl ServerBuilder {
 //@end
 //@extract file=actix-server/src/builder.rs item="impl ServerBuilder / fn worker_max_blocking_threads" ret=r props=C02 name=builder::worker_max_blocking_threads mut_self
 //@spec
-    ensures r.worker_config.max_concurrent_connections == self.worker_config.max_concurrent_connections,
+    ensures r.worker_config.max_blocking_threads == num,
+            r.worker_config.max_concurrent_connections == self.worker_config.max_concurrent_connections,   // [C02] the connection limit is left alone
             r.worker_config.shutdown_timeout == self.worker_config.shutdown_timeout, r.same_table(&self),
 //@end
 //@extract file=actix-server/src/builder.rs item="impl ServerBuilder / fn backlog" ret=r props=C01 name=builder::backlog mut_self
@@ -442,12 +452,14 @@ impl ServerBuilder {
 //@spec
     requires self.wf(), self.token < usize::MAX,
     ensures r matches Ok(b) ==> b.wf() && b.token == self.token + 1 && b.sockets@[self.token as int].2 is Tcp,   // [C01]
+            r matches Ok(b) ==> listener_nonblocking(&b.sockets@[self.token as int].2),   // [C01,C05] the accept loop never blocks in accept()
 //@end
 
 //@extract file=actix-server/src/builder.rs item="impl ServerBuilder / fn listen_uds" ret=r props=C01 name=builder::listen_uds mut_self sig_replace="pub fn listen_uds<F, N: AsRef<str>>(=>pub fn listen_uds(;;name: N=>name: NameLike;;factory: F=>factory: UserFactory;;where F: ServerServiceFactory<actix_rt::net::UnixStream>,=> "
 //@spec
     requires self.wf(), self.token < usize::MAX,
     ensures r matches Ok(b) ==> b.wf() && b.token == self.token + 1 && b.sockets@[self.token as int].2 is Uds,   // [C01] Unix-domain listeners get their own token and factory too
+            r matches Ok(b) ==> listener_nonblocking(&b.sockets@[self.token as int].2),   // [C01,C05]
 //@replace pattern="use std::net::{IpAddr, Ipv4Addr};" rule=R15
 use crate::std::net::{IpAddr, Ipv4Addr};
 //@end
